@@ -105,6 +105,12 @@ func splitSubPath(src string) (string, string) {
 	}
 
 	idx += offset
+	// A package address that itself ends in a slash is followed by three
+	// slashes when a sub-path is added to it: the first of them still belongs
+	// to the package, so that what RemoteSource.String prints parses back.
+	if rest := src[idx+2 : stop]; strings.HasPrefix(rest, "/") && !strings.HasPrefix(rest, "//") {
+		idx++
+	}
 	subdir := src[idx+2:]
 	src = src[:idx]
 
